@@ -163,6 +163,70 @@ func c13LongRun(c *mon.Ctx, r *rand.Rand) {
 	c.Count("long_runs")
 }
 
+// c13InPlaceHooked: as c13InPlace, with a value-transformation hook whose
+// output is COMPUTED from what a pointer points to, on data reached through
+// pointers that stay the same while their pointees change.
+type c13Wrap struct{ Wrapped string }
+type c13Rec struct {
+	Box  *c13Wrap
+	List []*c13Wrap
+	M    map[string]*c13Wrap
+	N    *int
+}
+
+func c13InPlaceHooked(c *mon.Ctx, r *rand.Rand) {
+	hook := func(v reflect.Value) reflect.Value {
+		x := v
+		for x.IsValid() && x.Kind() == reflect.Interface && !x.IsNil() {
+			x = x.Elem()
+		}
+		if x.IsValid() && x.Kind() == reflect.Ptr && !x.IsNil() {
+			if w, ok := x.Interface().(*c13Wrap); ok {
+				return reflect.ValueOf(strings.ToUpper(w.Wrapped))
+			}
+			if n, ok := x.Interface().(*int); ok {
+				return reflect.ValueOf(*n * 2)
+			}
+		}
+		return v
+	}
+	n := 1
+	rec := &c13Rec{Box: &c13Wrap{"a"}, List: []*c13Wrap{{"a"}, {"x"}}, M: map[string]*c13Wrap{"k": {"a"}}, N: &n}
+	var datum interface{} = rec
+	if r.Intn(2) == 0 {
+		datum = map[string]interface{}{"Box": rec.Box, "List": rec.List, "M": rec.M, "N": rec.N}
+	}
+	exprs := []string{`Box == A`, `Box != A`, `Box matches "^B$"`, `N == 2`, `any List as v { v == B }`, `all List as v { v != B }`, `M.k == A`, `B in List`, `any M as _, v { v == "B" }`, `List.0 == A and N == 2`}
+	text := exprs[r.Intn(len(exprs))]
+	used, err, pan, _ := createEval(text, bexpr.WithHookFn(hook))
+	if pan != "" || err != nil {
+		return
+	}
+	step := func(label string) bool {
+		fresh, _, _, _ := createEval(text, bexpr.WithHookFn(hook))
+		ou, of := evaluate(used, datum), evaluate(fresh, datum)
+		c.Evals(2)
+		if ou.Class() != of.Class() {
+			c.Violation(fmt.Sprintf("C13 history-dependent in-place-update hooked used=%s fresh=%s", ou.Class(), of.Class()), "after the caller changed what a pointer points to, a used evaluator (with a hook) answers differently from a fresh one",
+				map[string]any{"expression": text, "after": label, "used_evaluator": ou.String(), "fresh_evaluator": of.String()})
+			return false
+		}
+		return true
+	}
+	if !step("first call") {
+		return
+	}
+	rec.Box.Wrapped, rec.List[0].Wrapped, rec.M["k"].Wrapped, n = "b", "b", "b", 5
+	if !step("pointees overwritten") {
+		return
+	}
+	rec.Box.Wrapped, rec.List[0].Wrapped, rec.M["k"].Wrapped, n = "a", "a", "a", 1
+	if !step("change undone") {
+		return
+	}
+	c.Count("in_place_update_histories_with_hook")
+}
+
 // c13ManySubjects: one evaluator sees hundreds of DISTINCT data (more than any
 // small cache holds: 64, 128, 256, 1024), then the earlier ones again in
 // another order; every answer must be the one a fresh evaluator gives.
@@ -268,6 +332,9 @@ func c13Run(c *mon.Ctx, idx int) {
 	if idx%25 == 1 {
 		c13InPlace(c, r)
 	}
+	if idx%25 == 2 {
+		c13InPlaceHooked(c, r)
+	}
 	if idx%20 == 0 {
 		c13SameRootType(c, r)
 	}
@@ -336,6 +403,8 @@ func c13Run(c *mon.Ctx, idx int) {
 				if m, ok := datum.(map[string]interface{}); ok {
 					in = [1]map[string]interface{}{m}
 				}
+			case 2:
+				in = map[string]interface{}{"a": datum, "b": pool[r.Intn(len(pool))].Datum()}
 			}
 			before := mon.Snapshot(in)
 			x := execute(filt, in)
@@ -348,6 +417,23 @@ func c13Run(c *mon.Ctx, idx int) {
 			if (x.err == nil) != (fx.err == nil) || x.panic != fx.panic || !reflect.DeepEqual(x.out, fx.out) {
 				c.Violation("C13 execute-history-dependent", "Execute on a used filter differs from a fresh filter", map[string]any{"expression": clip(text, 300), "history": history, "used": fmt.Sprintf("%#v %v %s", x.out, x.err, x.panic), "fresh": fmt.Sprintf("%#v %v %s", fx.out, fx.err, fx.panic)})
 				return
+			}
+			// the caller owns the result and writes into it; a later call must
+			// not see that
+			if x.err == nil && x.panic == "" && x.out != nil {
+				switch ov := reflect.ValueOf(x.out); ov.Kind() {
+				case reflect.Map:
+					if ov.Type().Key().Kind() == reflect.String {
+						ov.SetMapIndex(reflect.ValueOf("a").Convert(ov.Type().Key()), reflect.ValueOf(&datum).Elem())
+						ov.SetMapIndex(reflect.ValueOf("written-by-the-caller").Convert(ov.Type().Key()), reflect.ValueOf(&datum).Elem())
+						c.Count("execute_results_written_into")
+					}
+				case reflect.Slice:
+					if ov.Len() > 0 {
+						ov.Index(0).Set(reflect.Zero(ov.Type().Elem()))
+						c.Count("execute_results_written_into")
+					}
+				}
 			}
 			history = append(history, "Execute")
 			c.Count("execute_calls")
@@ -731,7 +817,7 @@ func init() {
 		NumCases:    func(tier string) int { return tierN(tier, 4000, 150000) },
 		Run:         c13Run,
 		Required: func(tier string) []string {
-			return []string{"histories", "in_place_update_histories", "long_runs", "many_subject_runs", "same_root_type_histories", "evaluate_calls", "execute_calls", "calls_after_an_error_follow", "call_outcome:T", "call_outcome:F", "call_outcome:E", "history_len:0", "history_len:2", "history_len:3"}
+			return []string{"histories", "in_place_update_histories", "in_place_update_histories_with_hook", "long_runs", "many_subject_runs", "same_root_type_histories", "evaluate_calls", "execute_calls", "execute_results_written_into", "calls_after_an_error_follow", "call_outcome:T", "call_outcome:F", "call_outcome:E", "history_len:0", "history_len:2", "history_len:3"}
 		},
 	})
 	mon.Register(&mon.Prop{
